@@ -11,6 +11,8 @@ mod d1c03;
 mod d1req;
 mod d1stream;
 mod d2;
+mod d2sema;
+mod d3;
 mod exec;
 mod d4;
 mod gen;
